@@ -1,7 +1,7 @@
 (* Proofs about Model/LocalFS.v: finite-map laws, exactness and order of listings, completeness
    of paging for every page size, exclusive creation. *)
 From Coq Require Import List String Ascii NArith Bool Arith Lia Sorted.
-From DM Require Import Base.Str Base.StrOrder Base.Paging Model.LocalFS.
+From DM Require Import Base.Str Base.StrOrder Base.Paging Base.Listing Model.LocalFS.
 Import ListNotations.
 Open Scope list_scope.
 
@@ -54,15 +54,11 @@ Qed.
 
 (* ---- listings ---- *)
 Theorem list_all_sorted : forall p d s, StronglySorted slt (list_all p d s).
-Proof. intros. unfold list_all. apply sort_uniq_sorted. Qed.
+Proof. intros. unfold list_all. apply list_keys_sorted. Qed.
 
 Theorem list_all_exact : forall p d s x,
   In x (list_all p d s) <-> exists k, In k (map fst s) /\ starts_with p k = true /\ x = cut p d k.
-Proof.
-  intros p d s x. unfold list_all. rewrite sort_uniq_In, in_map_iff. split.
-  - intros [k [Hc Hin]]. apply filter_In in Hin. destruct Hin as [Hin Hp]. exists k. auto.
-  - intros [k [Hin [Hp Hc]]]. exists k. split; [auto|]. apply filter_In. auto.
-Qed.
+Proof. intros. unfold list_all. apply list_keys_exact. Qed.
 
 Lemma exact_seek_suffix : forall pre k suf,
   StronglySorted slt (pre ++ k :: suf) -> exact_seek k (pre ++ k :: suf) = k :: suf.
